@@ -1,4 +1,5 @@
 """C11 TDD three-valued logic"""
+import edm
 import ector
 import ecof
 import eeval
@@ -70,4 +71,8 @@ def run(ctx):
                 "edge; ZBDD: (tautology(level + 1), Empty) as the first node of its chain); the default not_var is not(var).")
     n = ector.run(ctx, F, only=("tdd",))
     ctx.floor("E-TABLE.ctor", "interpreted constructor bodies", n, 4)
+    ctx.explain("E-CACHE.dm: the results of the recursion are memoised in the direct-mapped apply cache, which holds uncounted "
+                "edges: it compares and hashes all key parts, and every entry is cleared (under its lock) in pre_gc / before a "
+                "reordering, so that no entry survives the collection of one of its nodes and is served for a recycled id.")
+    edm.run(ctx, F)
     ctx.not_decided = "the value eval assumes for variables missing from its arguments"
